@@ -387,6 +387,21 @@ pub fn run_backend<B: Backend>(rec: &mut Recorder, progress: &mut std::fs::File,
                 }
             }
         }
+        // password-wrapped keys: every single bit of the cost parameter block flipped (what the budget allows is executed)
+        if parser.starts_with("pw.") {
+            for it in valid.iter().filter(|it| it.ver == B::VER && it.kind == parser) {
+                let Some(body) = it.text.strip_prefix(&hdr).and_then(crate::b64::dec) else { continue };
+                let (at, len) = if B::VER == 1 || B::VER == 3 { (32, 4) } else { (16, 16) };
+                for bit in 0..len * 8 {
+                    let mut b = body.clone();
+                    if at + len > b.len() {
+                        break;
+                    }
+                    b[at + bit / 8] ^= 0x80 >> (bit % 8);
+                    go(rec, parser, format!("{hdr}{}", crate::b64::enc(&b)), json!({"valid_from":it.be,"mutation":"parameter-bit","bit":bit}));
+                }
+            }
+        }
         // valid values of this kind (of every backend of the same version) with one mutation of the decoded body
         for it in valid.iter().filter(|it| it.ver == B::VER && (it.kind == parser || (it.kind == "key.pkepublic" && parser == "key.public") || (it.kind == "key.pkesecret" && parser == "key.secret"))) {
             go(rec, parser, it.text.clone(), json!({"valid_from":it.be}));
